@@ -42,7 +42,8 @@ PROPS = {
     "C05": {
         "level": "Argument and run lists are appended together and unconditionally for every call; data_in <- combiner(args[m], Cat(runs[m])) with "
         "the same key; default combiner and OneHotMux pair select[i] with inputs[i]; call returns data_out; four same-field mirrors "
-        "(body->method, provided methods) and three for transactions; def_method assigns the returned value with AssignType.ALL.",
+        "(body->method, provided methods) and three for transactions; def_method assigns the returned value with AssignType.ALL; Methods.provide forwards every element; "
+        "enable_call defaults to the constant 1 and Methods.__call__ hands it on.",
         "undecided": "user-supplied combiner bodies; value equality over cycles.",
         "technique": T_CORE,
     },
@@ -73,14 +74,17 @@ PROPS = {
     "C09": {
         "level": "Request/grant wiring of the round-robin scheduler (same index, arbiter size), and the arbiter's structure: one-hot grant values, "
         "grant under If(requests[j]) with the same j, valid == any(requests), unconditional state update, scan order = cyclic successor "
-        "order (index sequences evaluated for count < 8).",
+        "order (index sequences evaluated for count < 8); ModuleConnector adds every scheduler as a submodule; reports known finding F41 (the "
+        "scheduler never reads the order, which is what keeps the run network acyclic).",
         "undecided": "the temporal bound (a continuously requesting transaction is granted within count cycles) is argued on paper only.",
         "technique": T_CORE,
     },
     "C10": {
         "level": "Library rule: wherever a body's ready combinationally reads another body's run, the order is declared (instances: Forwarder, "
         "Pipe; thorough tier also docs/_code); core links: schedule_before -> LEFT priority -> order parity; eager run reads only earlier "
-        "runs; runnable reads only ready-dependency runs; enable signals not run-gated.",
+        "runs; runnable reads only ready-dependency runs; enable signals not run-gated; the value a library method returns does not read a signal "
+        "driven under another body's run unless that body is scheduled before it (instance: transparent MemoryBank); reports known findings F46 "
+        "(results that read their own run) and F47 (merged-transaction enables read a run).",
         "undecided": "absence of combinational cycles in arbitrary user designs (netlist property).",
         "technique": T_CORE,
     },
@@ -107,7 +111,9 @@ PROPS = {
     "C13": {
         "level": "Connect declares write/read simultaneous, each returns the other's argument driven in av_comb; simultaneity recorded both ways and "
         "copied to bodies; merged transaction calls all members; the steps of the group computation in _simultaneous (pairs, independence, "
-        "closure, maximal groups, retired members, removed relations) and MethodMap.transactions_for.",
+        "closure with the weak-independence table, maximal groups, retired members, removed relations), a group is built only if every "
+        "simultaneous partner (a family of alternatives counts as one) of every body it runs has a caller in it, and MethodMap.transactions_for; "
+        "bodies request only under their enclosing conditions (ready in av_comb).",
         "undecided": "joint readiness under other blocked methods.",
         "technique": T_CORE,
     },
